@@ -32,7 +32,13 @@ class SimpleGzipDecompressor(object):
         Also checks for errors such as truncated input.
         No other methods may be called on this object after `flush`.
         """
-        return self.decompressobj.flush()
+        data = self.decompressobj.flush()
+
+        if not self.decompressobj.eof:
+            # zlib does not complain about missing data by itself
+            raise zlib.error('Incomplete or truncated stream')
+
+        return data
 
 
 class GzipDecompressor(SimpleGzipDecompressor):
